@@ -13,6 +13,7 @@ import NumbersModel.Gen.TrAddr
 import NumbersModel.Gen.TrDateFmt
 import NumbersModel.Gen.TrDuration
 import NumbersModel.Gen.TrDec128
+import NumbersModel.Gen.TrMerge
 import NumbersModel.Drv.Addressing
 import NumbersModel.Model.DateFmt
 
@@ -119,6 +120,38 @@ def handleTrD128 : List String → Option String
     pure (showPyM (fun (r : Int × Int × Int) => s!"{r.1} {r.2.1} {r.2.2}") (unpack_decimal128 b))
   | _ => none
 
+/-- `pack <row> <col> <h> <w>`: reply `ok <origin> <size>`; `unpack <origin> <size>`: reply `ok r0 c0 r1 c1 nrows ncols` -/
+def handleTrMerge : List String → Option String
+  | ["pack", r, c, h, w] => do
+    let r ← r.toInt?; let c ← c.toInt?; let h ← h.toInt?; let w ← w.toInt?
+    pure (showPyM (fun (p : Int × Int) => s!"{p.1} {p.2}") (merge_pack (r, c) (h, w)))
+  | ["unpack", o, s] => do
+    let o ← o.toInt?; let s ← s.toInt?
+    pure (showPyM (fun (p : Int × Int × Int × Int × Int × Int) =>
+      s!"{p.1} {p.2.1} {p.2.2.1} {p.2.2.2.1} {p.2.2.2.2.1} {p.2.2.2.2.2}") (merge_unpack o s))
+  | _ => none
+
+/-- the operators of `Py/Trans.lean` themselves, so that the meaning the translator gives to `& | << >> // %` and
+    `int(a / b)` / `int(ceil(a / c))` is compared with CPython on signed operands -/
+def handlePyOps : List String → Option String
+  | [op, a, b] => do
+    let a ← a.toInt?; let b ← b.toInt?
+    let showI := fun (i : Int) => s!"{i}"
+    match op with
+    | "and" => pure ("ok " ++ showI (PyT.bitAnd a b))
+    | "or" => pure ("ok " ++ showI (PyT.bitOr a b))
+    | "shl" => pure (showPyM showI (PyT.shl a b))
+    | "shr" => pure (showPyM showI (PyT.shr a b))
+    | "floordiv" => pure (showPyM showI (PyT.floordiv a b))
+    | "mod" => pure (showPyM showI (PyT.mod a b))
+    | "truedivtrunc" => pure (showPyM showI (PyT.trueDivTrunc a b))
+    | "ceildiv" => pure (showPyM showI (PyT.ceilDivFloat a b))
+    | _ => none
+  | ["range3", a, b, c] => do
+    let a ← a.toInt?; let b ← b.toInt?; let c ← c.toInt?
+    pure (showPyM (fun (l : List Int) => " ".intercalate (l.map (fun i => s!"{i}"))) (PyT.range3 a b c))
+  | _ => none
+
 def trDispatch (line : String) : String :=
   let ws := (line.splitOn " ").filter (· ≠ "")
   let r : Option String := match ws with
@@ -129,6 +162,8 @@ def trDispatch (line : String) : String :=
     | "datefmt" :: rest => handleTrDateFmt rest
     | "dur" :: rest => handleTrDuration rest
     | "d128" :: rest => handleTrD128 rest
+    | "merge" :: rest => handleTrMerge rest
+    | "py" :: rest => handlePyOps rest
     | _ => none
   match r with
   | some s => s
